@@ -142,6 +142,8 @@ type fn struct {
 type tr struct {
 	all map[string]*fn // key: pkgpath + "." + name
 	f   *fn
+	// guardIf: the `if` statement a window ends with (spec.go guardIf): the definition returns whether its condition holds
+	guardIf *ast.IfStmt
 }
 
 // assignedTwice: the body assigns the name in more than one statement
@@ -1109,6 +1111,11 @@ func (t *tr) stmts(list []ast.Stmt, tail []string) []string {
 			if x.Init != nil {
 				t.bad(x, "if with init statement")
 			}
+			if x == t.guardIf {
+				// the window ends with this `if`: what its branches do is outside the definition, which returns whether the condition holds
+				b.add("pure (decide " + t.expr(b, x.Cond) + ")")
+				return b.lines
+			}
 			cond := t.expr(b, x.Cond)
 			rest := list[i+1:]
 			var elseList []ast.Stmt
@@ -1331,7 +1338,19 @@ func (t *tr) function() string {
 			}
 		}
 		f.windowFirst = first
+		t.guardIf = nil
+		if guardIf[f.spec.Lean] {
+			is, ok := f.decl.Body.List[start%len(f.decl.Body.List)].(*ast.IfStmt)
+			if !ok || f.spec.Until == "" {
+				panic(translErr{f.spec.Func + ": guardIf needs Until to name an if statement"})
+			}
+			t.guardIf = is
+			start++ // the `if` itself belongs to the window
+		}
 		for n := start; n >= first+1 && !done; n-- {
+			if t.guardIf != nil && n < start {
+				break // a window that ends with a guard is translated whole or not at all
+			}
 			func() {
 				defer func() {
 					if r := recover(); r != nil {
